@@ -881,6 +881,38 @@ def _first_field_of_trace(repo, tracer) -> Optional[str]:
 # ---------------------------------------------------------------------------
 
 
+def _r08e(chk, repo) -> None:
+    n = 0
+    for m in repo.iter_modules("src/sqlfluff/core/templaters/"):
+        if "ignore_templating" not in m.text:
+            continue
+        for q, f in m.functions():
+            cs = [c for c in ast.walk(f) if isinstance(c, ast.Call) and any(k.arg == "ignore_templating" for k in c.keywords)]
+            if not cs:
+                continue
+            cfg = cfg_of(f)
+            fparams = {a.arg for a in f.args.args + f.args.kwonlyargs}
+            for c in cs:
+                v = [k.value for k in c.keywords if k.arg == "ignore_templating"][0]
+                n += 1
+                exprs = [v]
+                if isinstance(v, ast.Name):
+                    if v.id in fparams and v.id == "ignore_templating":
+                        continue
+                    exprs = [o.expr for o in origins(cfg, v, cfg.stmt_of(c)) if o.kind == "expr"] or [v]
+                def is_test(e) -> bool:
+                    return (isinstance(e, ast.Compare) and len(e.ops) == 1 and isinstance(e.ops[0], ast.In) and isinstance(e.left, ast.Constant) and e.left.value == "templating"
+                            and "ignore" in norm(e.comparators[0]))
+                chk.require(
+                    all(is_test(e) for e in exprs), "R08e", c,
+                    f"{q} passes ignore_templating={short(v, 40)}, which is not `'templating' in <config>.get('ignore')`: with e.g. `ignore = parsing` undefined variables are then rendered as their "
+                    "own names and no templating error is reported, unlike Jinja's render of the same template and context",
+                    detail=f"{q}: ignore_templating is the membership test for 'templating'",
+                )
+    chk.count("R08e.ignore_templating_arguments", n)
+    chk.floor("R08e.ignore_templating_arguments", 1)
+
+
 def _r08d(chk, repo) -> None:
     """SQLFluff adds stand-ins to the render context: dbt builtins, and for every name the template
     mentions but the context lacks an UndefinedRecorder / DummyUndefined (which is truthy, not none
@@ -995,6 +1027,8 @@ def run(chk) -> None:
         "CR/CRLF in template data to newline_sequence, so on an un-normalised string the fast path and a Jinja render differ by construction."
     )
     chk.assumptions.append("jinja2's defaults are the documented ones ('{{', '{%', '{#', no line statements, keep_trailing_newline=False); environments built by dbt itself are outside the analysed tree.")
+    chk.rule("R08e", "undefined variables get the lenient treatment only under ignore = templating: every `ignore_templating=` argument in the templaters is the test `'templating' in <config>.get('ignore')` (or the caller's own ignore_templating parameter), not the truthiness of the ignore list")
+    _r08e(chk, repo)
     chk.rule("R08d", "what the user's context defines is what Jinja sees: after the context is assembled, a name is added to it (dbt builtins, undefined-variable recorders) only under a test that the name is not in it")
     _r08d(chk, repo)
     cons = _r08a_envs(chk, repo)
@@ -1053,6 +1087,12 @@ _UNDEF_OLD = (
 )
 
 VARIANTS = [
+    Variant(
+        "any-ignore-setting-makes-undefined-variables-lenient", JINJA,
+        '            ignore_templating=("templating" in config.get("ignore")),\n',
+        '            ignore_templating=bool(config.get("ignore")),\n',
+        "R08e", "process", "seeded C08-7",
+    ),
     # behaviour-preserving refactors: must stay quiet
     Variant(
         "quiet-fast-path-nested-ifs-and-loader-local", JINJA, _FAST_OLD,
